@@ -351,6 +351,7 @@ func runC06(c *Ctx) {
 		ruleConfigParsed(c, p, "C06.config")
 		ruleConfiguredFlag(c, p, "C06.configured")
 		ruleFieldBeforeUse(c, p, "C06.field-before-use")
+		ruleResetComplete(c, p, "C06.reset-clears")
 		ruleInferNonNil(c, p, "C06.infer-nonnil")
 		ruleInferCache(c, p, "C06.infer-cache")
 		ruleInferIndex(c, p, "C06.infer-index")
@@ -407,6 +408,18 @@ func ruleAlloc(c *Ctx, p *core.Program) {
 		return nil
 	}
 	helperParam := map[*ssa.Function]int{}
+	helperKind := map[*ssa.Function]string{}
+	sinkKind := func(in ssa.Instruction) string {
+		switch x := in.(type) {
+		case *ssa.MakeSlice:
+			if st, ok := x.Type().Underlying().(*types.Slice); ok {
+				return types.TypeString(st.Elem(), func(*types.Package) string { return "" })
+			}
+		case *ssa.Call:
+			return "Ensure"
+		}
+		return "?"
+	}
 	for _, fn := range decodeSide(p) {
 		if fn.Object() == nil || fn.Object().Exported() || len(fn.Params) == 0 {
 			continue
@@ -420,13 +433,14 @@ func ruleAlloc(c *Ctx, p *core.Program) {
 				for i, pr := range fn.Params {
 					if _, isInt := pr.Type().Underlying().(*types.Basic); isInt && stripConv(sz) == ssa.Value(pr) {
 						helperParam[fn] = i
+						helperKind[fn] = sinkKind(in)
 					}
 				}
 			}
 		}
 	}
 	for _, fn := range decodeSide(p) {
-		k := 0
+		kinds := map[string]int{}
 		for _, b := range fn.Blocks {
 			for _, in := range b.Instrs {
 				var size ssa.Value
@@ -442,8 +456,9 @@ func ruleAlloc(c *Ctx, p *core.Program) {
 					if h := core.StaticFn(cl); h != nil {
 						if pi, isHelper := helperParam[h]; isHelper && pi < len(cl.Call.Args) {
 							n++
-							k++
-							key := sprintf("%s/alloc#%d", core.FuncName(fn), k)
+							// keyed like the sink inside the helper, so that moving the allocation into a helper keeps its name
+							kinds[helperKind[h]]++
+							key := sprintf("%s/alloc[%s]#%d", core.FuncName(fn), helperKind[h], kinds[helperKind[h]])
 							size = cl.Call.Args[pi]
 							if bc.bounded(size, in, 0) {
 								c.R.Ok(rule, key, cfg, p.Pos(in.Pos()), "allocation in "+h.Name()+" sized by a bounded value")
@@ -458,21 +473,26 @@ func ruleAlloc(c *Ctx, p *core.Program) {
 						}
 					}
 				}
+				kind := ""
 				switch x := in.(type) {
 				case *ssa.MakeSlice:
 					if _, ok := core.ConstInt(x.Len); ok {
 						continue
 					}
 					size, what = x.Len, "make"
+					kind = "?"
+					if st, ok := x.Type().Underlying().(*types.Slice); ok {
+						kind = types.TypeString(st.Elem(), func(*types.Package) string { return "" })
+					}
 				case *ssa.MakeMap:
 					if x.Reserve == nil {
 						continue
 					}
-					size, what = x.Reserve, "make(map)"
+					size, what, kind = x.Reserve, "make(map)", "map"
 				case *ssa.Call:
 					f := core.CalleeFunc(x)
 					if f != nil && core.IsMethod(f, core.PkgProto, "Buffer", "Ensure") {
-						size, what = x.Call.Args[1], "Buffer.Ensure"
+						size, what, kind = x.Call.Args[1], "Buffer.Ensure", "Ensure"
 					} else {
 						continue
 					}
@@ -480,8 +500,10 @@ func ruleAlloc(c *Ctx, p *core.Program) {
 					continue
 				}
 				n++
-				k++
-				key := sprintf("%s/alloc#%d", core.FuncName(fn), k)
+				// keyed by what is allocated (element type) and its ordinal among the like in this function, so that
+				// moving an unrelated allocation out of the function does not rename the others
+				kinds[kind]++
+				key := sprintf("%s/alloc[%s]#%d", core.FuncName(fn), kind, kinds[kind])
 				if bc.bounded(size, in, 0) {
 					c.R.Ok(rule, key, cfg, p.Pos(in.Pos()), what+" sized by a bounded value")
 				} else {
